@@ -1,0 +1,5 @@
+//go:build !verif
+
+package regulator
+
+func (r *regulator) verifPickTable() (*Table, bool) { return nil, false }
